@@ -21,7 +21,9 @@ def plan(tier):
             shards.append((cb, 7, 0, cap))
             if 0x20 <= op <= 0x3F and (tier != "quick" or (cb[1] >> 28) == 0xE):
                 shards.append((cb, 7, 1, cap))          # carry flag is an input of the modified-immediate forms
-            if tier != "quick":
+            if tier != "quick" or (cb[1] >> 28) == 0xE:
+                # architecture versions 6 and 5 (several from_bitarray() bodies consult the version): the whole space in
+                # the thorough tier, the cond = AL sixteenth in the quick tier
                 shards.append((cb, 6, 0, cap))
                 shards.append((cb, 5, 0, cap))
     return {
@@ -29,7 +31,7 @@ def plan(tier):
         "rule": "joint cube partition of w -> (decode_instruction(w) + from_bitarray(w), encoding-table verdict) over the "
                 "ARM word space; class selection compared at every leaf, operands exactly / by bit provenance / by concrete "
                 "enumeration of the bits they depend on; state = one leaf cube",
-        "bounds": {"wide_observation_cap": cap, "arch_versions": [7] if tier == "quick" else [7, 6, 5],
+        "bounds": {"wide_observation_cap": cap, "arch_versions": "7 (AL, NV, EQ); 6 and 5 (AL)" if tier == "quick" else [7, 6, 5],
                    "conditions": "AL, NV, EQ (3/16 of the space)" if tier == "quick" else "all 16 (all 2^32 words)",
                    "carry": "both values on the modified-immediate space"},
         "exhaustive": tier != "quick",
